@@ -55,6 +55,9 @@ func Shrink(raw json.RawMessage) []json.RawMessage {
 		i := i
 		emit(func(c *Scenario) bool { dropNode(c, i); return true })
 	}
+	if sc.HistAfter > 0 {
+		emit(func(c *Scenario) bool { c.HistAfter = 0; return true })
+	}
 	if len(sc.History) > 0 {
 		emit(func(c *Scenario) bool { c.History = nil; return true })
 		for i := range sc.History {
